@@ -203,22 +203,8 @@ impl PoolImpl {
                     self.handle_finalization(finalization_event).await;
                 }
 
-                // potentially notify child waiting for safe-to-notar
-                for (child_slot, child_hash) in self
-                    .s2n_waiting_parent_cert
-                    .remove(&block_id)
-                    .unwrap_or_default()
-                {
-                    if let Some(output) = self
-                        .slot_state(child_slot)
-                        .notify_parent_certified(child_hash)
-                    {
-                        match output {
-                            Either::Left(event) => self.send_votor_event(event).await,
-                            Either::Right((slot, hash)) => self.send_repair((slot, hash)).await,
-                        }
-                    }
-                }
+                // potentially notify children waiting for safe-to-notar
+                self.notify_children_parent_certified(&block_id).await;
 
                 // add block to parent-ready tracker, send any new parents to Votor.
                 let new_parents_ready = self.parent_ready_tracker.mark_notar_fallback(&block_id);
@@ -235,6 +221,10 @@ impl PoolImpl {
             Cert::FastFinal(ff_cert) => {
                 info!("fast finalized slot {slot}");
                 let hash = ff_cert.block_hash().clone();
+                // a fast-finalization certificate certifies the block just like a
+                // notar(-fallback) certificate does, so children waiting for it are notified
+                self.notify_children_parent_certified(&(slot, hash.clone()))
+                    .await;
                 let finalization_event = self.finality_tracker.mark_fast_finalized((slot, hash));
                 self.handle_finalization(finalization_event).await;
             }
@@ -248,6 +238,27 @@ impl PoolImpl {
         // send to votor for broadcasting
         let event = PoolEvent::CertCreated(cert);
         self.send_votor_event(event).await;
+    }
+
+    /// Tells every block waiting for `parent` to be certified that it now is.
+    ///
+    /// Emits any safe-to-notar events (or repair requests) this unblocks.
+    async fn notify_children_parent_certified(&mut self, parent: &BlockId) {
+        for (child_slot, child_hash) in self
+            .s2n_waiting_parent_cert
+            .remove(parent)
+            .unwrap_or_default()
+        {
+            if let Some(output) = self
+                .slot_state(child_slot)
+                .notify_parent_certified(child_hash)
+            {
+                match output {
+                    Either::Left(event) => self.send_votor_event(event).await,
+                    Either::Right((slot, hash)) => self.send_repair((slot, hash)).await,
+                }
+            }
+        }
     }
 
     /// Mutably accesses the [`SlotState`] for the given `slot`.
